@@ -147,8 +147,15 @@ func lower(t *rt.Thread, c *rt.GoCont) (rt.Cont, error) {
 		return nil, err
 	}
 	t.RequireBytes(len(s))
-	s = strings.ToLower(string(s))
-	return c.PushingNext1(t.Runtime, rt.StringValue(s)), nil
+	// Lua strings are byte strings: only ASCII letters are mapped (C locale),
+	// every other byte is kept, so the length is preserved.
+	sb := []byte(s)
+	for i, b := range sb {
+		if 'A' <= b && b <= 'Z' {
+			sb[i] = b + ('a' - 'A')
+		}
+	}
+	return c.PushingNext1(t.Runtime, rt.StringValue(string(sb))), nil
 }
 
 func upper(t *rt.Thread, c *rt.GoCont) (rt.Cont, error) {
@@ -160,8 +167,15 @@ func upper(t *rt.Thread, c *rt.GoCont) (rt.Cont, error) {
 		return nil, err
 	}
 	t.RequireBytes(len(s))
-	s = strings.ToUpper(string(s))
-	return c.PushingNext1(t.Runtime, rt.StringValue(s)), nil
+	// Lua strings are byte strings: only ASCII letters are mapped (C locale),
+	// every other byte is kept, so the length is preserved.
+	sb := []byte(s)
+	for i, b := range sb {
+		if 'a' <= b && b <= 'z' {
+			sb[i] = b - ('a' - 'A')
+		}
+	}
+	return c.PushingNext1(t.Runtime, rt.StringValue(string(sb))), nil
 }
 
 func rep(t *rt.Thread, c *rt.GoCont) (rt.Cont, error) {
